@@ -358,6 +358,13 @@ class Engine:
                 if any(x.startswith(base + '.') for x in sf):
                     return None
         v = g['init']
+        def esize(e):
+            k = e.get('k')
+            if k == 'int':
+                return max(1, e.get('w', 64) // 8)
+            if k == 'agg':
+                return sum(esize(x) for x in e['elts'])
+            return 8
         for p in path:
             if v.get('k') == 'zero':
                 return 0
@@ -367,11 +374,24 @@ class Engine:
                 idx = p[2]
             elif p[0] == 'i' and isinstance(p[1], int):
                 idx = p[1]
+            elif p[0] == 'o' and isinstance(p[1], int):
+                # byte offset into the aggregate (a cast pointer): find the element that starts there
+                pos, idx = 0, None
+                for k, e in enumerate(v['elts']):
+                    if pos == p[1]:
+                        idx = k
+                        break
+                    pos += esize(e)
+                if idx is None:
+                    return None
             else:
                 return None
             if idx >= len(v['elts']):
                 return None
             v = v['elts'][idx]
+        # a scalar read at the start of an aggregate reads its first scalar member
+        while v.get('k') == 'agg' and v.get('elts'):
+            v = v['elts'][0]
         return self.const_value(v)
 
     def const_value(self, c):
